@@ -408,23 +408,24 @@ int run_and_judge(const CaseM& c, bool useKnown, bool& nontrivial) {
         if (knownHere && useKnown && line.compare(0, 22, "##teamcity[testFailed ") == 0 && verif::known(KEY_FILE)) { next++; continue; }   // known finding: this one message is not decoded
         const char* over = knownHere ? KEY_FILE : nullptr;
 #define TC(cond, sig, ...) do { if (!(cond)) return verif::fail(over ? over : (sig), __VA_ARGS__); } while (0)
+#define TN(cond, sig, ...) do { if (!(cond)) return verif::fail((sig), __VA_ARGS__); } while (0)   // not a consequence of an unescaped test file name
         TC(at == 0, "C20:message-not-on-own-line", "line %zu: a service message starts at column %zu: \"%s\"", lineNo, at + 1, W(line, at).c_str());
         TC(terminated, "C20:message-not-on-own-line", "line %zu: the stream ends inside a message: \"%s\"", lineNo, W(line, line.size()).c_str());
         Msg m; std::string err; size_t errcol = 0;
         bool ok = parse_message(line, m, err, errcol);
         TC(ok, "C20:message-malformed", "line %zu does not parse as one service message (%s): \"%s\"%s", lineNo, err.c_str(), W(line, errcol).c_str(),
            want ? sfmt("; expected %s for \"%s\"", kind_name(want->kind), P(want->name).c_str()).c_str() : "");
-        TC(want != nullptr, "C20:extra-message", "line %zu: message %s after the last expected one: \"%s\"", lineNo, m.name.c_str(), W(line, 0).c_str());
+        TN(want != nullptr, "C20:extra-message", "line %zu: message %s after the last expected one: \"%s\"", lineNo, m.name.c_str(), W(line, 0).c_str());
         if (m.name != kind_name(want->kind)) {
             const char* sig = "C20:test-pairing";
             if (want->kind == Event::SuiteStart || want->kind == Event::SuiteFinish || m.name == "testSuiteStarted" || m.name == "testSuiteFinished") sig = "C20:suite-pairing";
             if (want->kind == Event::TestIgnored || m.name == "testIgnored") sig = "C20:ignored-flag";
             if (want->kind == Event::TestFailed || m.name == "testFailed") sig = "C20:failure-placement";
-            TC(false, sig, "line %zu: got %s \"%s\" where %s for \"%s\" is due", lineNo, m.name.c_str(), m.attr("name") ? P(*m.attr("name")).c_str() : "", kind_name(want->kind), P(want->name).c_str());
+            TN(false, sig, "line %zu: got %s \"%s\" where %s for \"%s\" is due", lineNo, m.name.c_str(), m.attr("name") ? P(*m.attr("name")).c_str() : "", kind_name(want->kind), P(want->name).c_str());
         }
         const std::string* a = m.attr("name");
         const char* nsig = (want->kind == Event::SuiteStart || want->kind == Event::SuiteFinish) ? "C20:suite-name" : (want->kind == Event::TestFailed ? "C20:failed-test-name" : "C20:test-name");
-        TC(a && *a == want->name, nsig, "line %zu: %s name decodes to \"%s\", expected \"%s\" (%s)", lineNo, m.name.c_str(), a ? P(*a).c_str() : "(absent)", P(want->name).c_str(),
+        TN(a && *a == want->name, nsig, "line %zu: %s name decodes to \"%s\", expected \"%s\" (%s)", lineNo, m.name.c_str(), a ? P(*a).c_str() : "(absent)", P(want->name).c_str(),
            a ? D(*a, want->name).c_str() : "");
         if (want->kind == Event::TestFailed) {
             a = m.attr("message");
@@ -433,14 +434,15 @@ int run_and_judge(const CaseM& c, bool useKnown, bool& nontrivial) {
                P(want->loc).c_str(), P(want->locWithPrefix).c_str());
             verif::cls(prefixed ? "location:with-TEST-failed-prefix" : "location:plain");
             a = m.attr("details");
-            TC(a && *a == want->details, "C20:failure-details", "line %zu: testFailed details decode to \"%s\", expected \"%s\" (%s)", lineNo, a ? P(*a).c_str() : "(absent)", P(want->details).c_str(),
+            TN(a && *a == want->details, "C20:failure-details", "line %zu: testFailed details decode to \"%s\", expected \"%s\" (%s)", lineNo, a ? P(*a).c_str() : "(absent)", P(want->details).c_str(),
                a ? D(*a, want->details).c_str() : "");
         }
         if (want->kind == Event::TestFinish) {
             a = m.attr("duration");
-            TC(a && !a->empty() && a->find_first_not_of("0123456789") == std::string::npos, "C20:duration", "line %zu: duration is \"%s\"", lineNo, a ? P(*a).c_str() : "(absent)");
+            TN(a && !a->empty() && a->find_first_not_of("0123456789") == std::string::npos, "C20:duration", "line %zu: duration is \"%s\"", lineNo, a ? P(*a).c_str() : "(absent)");
         }
 #undef TC
+#undef TN
         next++;
     }
     if (next < ev.size()) {
